@@ -204,6 +204,14 @@ Proof. exact stockholm_reader_fixpoint. Qed.
 Print Assumptions C01_stockholm_reader_fixpoint.
 
 (* ---- format detection: sugar's five sniffers (fasta, genbank, stockholm, gff, sjson) tried in the plugin order of /repo ---- *)
+(* detect() is first-match over the plugin order found in /repo: fasta, genbank, stockholm, gff, sjson *)
+Theorem C01_detect_order : forall t,
+  detect t = if is_fasta t then Some N_fasta else if is_genbank t then Some N_genbank
+             else if is_stockholm t then Some N_stockholm else if is_gff t then Some N_gff
+             else if is_sjson t then Some N_sjson else None.
+Proof. exact detect_unfold. Qed.
+Print Assumptions C01_detect_order.
+
 (* every text write() produces for a non-empty basket is recognised as its own format (SJSON: on the bytes json.dump renders) *)
 Theorem C01_written_detected : forall f b c, b <> [] -> write_w f b = Ok c -> detect (content_text c) = Some (fmt_name f).
 Proof. exact written_detected. Qed.
